@@ -11,6 +11,8 @@ from beziers.cubicbezier import CubicBezier
 from beziers.affinetransformation import AffineTransformation
 from beziers.boundingbox import BoundingBox
 from beziers.utils import quadraticRoots
+from beziers.path import geometricshapes as GS
+from beziers.utils import curvefitter as CF
 
 PROXY = None
 
@@ -55,6 +57,15 @@ def cmp_expr(kind, got, val, tol=None):
         pat = 'x0_'
         for i in range(1, len(kind[1])): pat = f'({pat}, x{i}_)'
         return f"(let '{pat} := {got} in " + ' && '.join(parts) + ')'
+    if kind == 'OBB':   # BoundingBox, possibly with unset corners (None)
+        if val.bl is None and val.tr is None: return f'match {got} with None => true | Some _ => false end'
+        if val.bl is None or val.tr is None: return 'false'
+        return f'match {got} with Some b_ => pt_feq (bl b_) {vlib.cpt(val.bl)} && pt_feq (tr b_) {vlib.cpt(val.tr)} | None => false end'
+    if kind in ('Lseg2', 'Lseg4'):   # a path built by BezierPath.fromSegments, compared through asSegments()
+        sk = kind[1:]
+        segs = val.asSegments() if hasattr(val, 'asSegments') else val
+        if any(len(x.points) != ORDER[sk] for x in segs): return 'false'
+        return f'list_eqb {sk}_feq ({got}) {vlib.clist([vlib.cseg(x) for x in segs])}'
     if kind == 'LIX':
         items = [f'({vlib.fhex(i.t1)}, {vlib.cpt(i.point)}, {vlib.fhex(i.t2)})' for i in val]
         f = 'ix_feq' if tol is None else f'(ix_fclose {vlib.fhex(tol)})'
@@ -69,6 +80,10 @@ def carg(kind, v):
     if kind == 'M': return vlib.cmat(v.matrix)
     if kind == 'B': return vlib.cbool(v)
     if kind == 'OS': return 'None' if v is None else f'(Some {vlib.fhex(v)})'
+    if kind == 'LP': return vlib.clist([vlib.cpt(x) for x in v])
+    if kind == 'LS': return vlib.clist([vlib.fhex(x) for x in v])
+    if kind == 'OBB': return 'None' if v.bl is None else f'(Some (BB {vlib.cpt(v.bl)} {vlib.cpt(v.tr)}))'
+    if kind == 'OP': return 'None' if v is None else f'(Some {vlib.cpt(v)})'
     if kind == 'BB': return f'(BB {vlib.cpt(v.bl)} {vlib.cpt(v.tr)})'
     raise ValueError(kind)
 
@@ -105,14 +120,28 @@ def g_BB(rng):
     return b
 def g_OS(rng): return rng.choice([None, 0.0, 2.0, -1.0, rng.uniform(-3, 3)])
 def g_B(rng): return rng.random() < 0.5
-GEN = {'S': g_S, 't': g_t, 'angle': g_angle, 'P': g_P, 'M': g_M, 'seg2': g_seg(2), 'seg3': g_seg(3), 'seg4': g_seg(4), 'BB': g_BB, 'OS': g_OS, 'B': g_B}
-KIND = {'t': 'S', 'angle': 'S'}
+def g_LP(rng): return [g_P(rng) for _ in range(rng.choice([0, 1, 2, 3, 5, 8]))]
+def g_LP2(rng):   # stroke data: mostly two or more points, sometimes with repeated points
+    l = [g_P(rng) for _ in range(rng.choice([0, 1, 2, 2, 3, 5, 8, 12]))]
+    if len(l) > 2 and rng.random() < 0.3: l[rng.randrange(1, len(l))] = l[0].clone()
+    return l
+def g_LS(rng): return sorted(rng.random() for _ in range(rng.choice([0, 1, 2, 3, 5, 8])))
+def g_OBB(rng): return BoundingBox() if rng.random() < 0.25 else g_BB(rng)
+def g_OP(rng): return None if rng.random() < 0.25 else rng.choice([g_P(rng), Point(rng.uniform(-5000, 5000), rng.uniform(-5000, 5000)), Point(0.0, 0.0)])
+def g_size(rng): return rng.choice([float(rng.randint(1, 5000)), rng.uniform(0.5, 5000), rng.uniform(-50, 50), 0.0])
+def g_sup(rng): return rng.choice([GS.CIRCULAR_SUPERNESS, rng.uniform(0.1, 1.2), 1.0, 0.0, rng.uniform(-2, 2)])
+GEN = {'S': g_S, 't': g_t, 'angle': g_angle, 'P': g_P, 'M': g_M, 'seg2': g_seg(2), 'seg3': g_seg(3), 'seg4': g_seg(4), 'BB': g_BB, 'OS': g_OS, 'B': g_B,
+       'OP': g_OP, 'OBB': g_OBB, 'LP': g_LP, 'LP2': g_LP2, 'LS': g_LS, 'size': g_size, 'sup': g_sup}
+KIND = {'t': 'S', 'angle': 'S', 'size': 'S', 'sup': 'S', 'LP2': 'LP'}
 
 
 class K:
     """one kernel: coq name, argument generator kinds (receiver first), python callable, return kind, tolerance"""
-    def __init__(self, coq, args, py, ret, tol=None, libm=False, clone=True):
+    def __init__(self, coq, args, py, ret, tol=None, libm=False, clone=True, term=None, name=None):
         self.coq, self.args, self.py, self.ret, self.tol, self.libm, self.clone = coq, args, py, ret, tol, libm, clone
+        # term(ops, cargs): the Coq term when it is not just `coq ops cargs` (e.g. a default argument filled in);
+        # name: the key in KERNELS when one generated definition is exercised by more than one kernel
+        self.term, self.name = term, name or coq
 
 
 def seg_kernels(kind):
@@ -148,7 +177,41 @@ def seg_kernels(kind):
     return ks
 
 
-KERNELS = {k.coq: k for k in (
+# path/geometricshapes.py (Gen/Shapes.v): the path is compared through asSegments(); the `@default` kernels call Python
+# WITHOUT the superness argument and the generated definition with the generated module constant
+SHAPE_KERNELS = [
+    K('geometricshapes_CIRCULAR_SUPERNESS', [], lambda: GS.CIRCULAR_SUPERNESS, 'S'),
+    K('geometricshapes_Rectangle', ['size', 'size', 'OP'], lambda w, h, o: GS.Rectangle(w, h, origin=o), 'Lseg2'),
+    K('geometricshapes_Square', ['size', 'OP'], lambda w, o: GS.Square(w, origin=o), 'Lseg2'),
+    K('geometricshapes_Ellipse', ['size', 'size', 'OP', 'sup'], lambda a, b, o, s: GS.Ellipse(a, b, origin=o, superness=s), 'Lseg4'),
+    K('geometricshapes_Circle', ['size', 'OP', 'sup'], lambda a, o, s: GS.Circle(a, origin=o, superness=s), 'Lseg4'),
+    K('geometricshapes_Ellipse', ['size', 'size', 'OP'], lambda a, b, o: GS.Ellipse(a, b, o), 'Lseg4', name='geometricshapes_Ellipse@default',
+      term=lambda ops, cargs: f'geometricshapes_Ellipse {ops} {cargs} (geometricshapes_CIRCULAR_SUPERNESS {ops})'),
+    K('geometricshapes_Circle', ['size', 'OP'], lambda a, o: GS.Circle(a, o), 'Lseg4', name='geometricshapes_Circle@default',
+      term=lambda ops, cargs: f'geometricshapes_Circle {ops} {cargs} (geometricshapes_CIRCULAR_SUPERNESS {ops})'),
+]
+# boundingbox.py BoundingBox.extend (receiver: option bbox, None = corners unset) and segment.py Segment.bounds
+BOUNDS_KERNELS = [
+    K('BBox_extend_Point', ['OBB', 'P'], lambda b, p: (b.extend(p), b)[1], 'OBB'),
+    K('BBox_extend_BBox', ['OBB', 'BB'], lambda b, o: (b.extend(o), b)[1], 'OBB'),
+    K('Line_bounds', ['seg2'], lambda s: s.bounds(), 'OBB'),
+    K('Quad_bounds', ['seg3'], lambda s: s.bounds(), 'OBB'),
+    K('Cubic_bounds', ['seg4'], lambda s: s.bounds(), 'OBB'),
+]
+# segment.py Segment.clone / Segment.round (round updates the receiver)
+SEGMENT_KERNELS = [K(f'{CLS[kd]}_clone', [kd], lambda s: s.clone(), kd) for kd in ('seg2', 'seg3', 'seg4')] + \
+                  [K(f'{CLS[kd]}_round', [kd], lambda s: (s.round(), s)[1], kd) for kd in ('seg2', 'seg3', 'seg4')]
+# utils/curvefitter.py (Gen/Fit.v); estimateBi updates its argument bez
+FIT_KERNELS = [
+    K('curvefitter_B0', ['t'], CF.B0, 'S'), K('curvefitter_B1', ['t'], CF.B1, 'S'),
+    K('curvefitter_B2', ['t'], CF.B2, 'S'), K('curvefitter_B3', ['t'], CF.B3, 'S'),
+    K('CurveFit_computeHook', ['P', 'P', 't', 'seg4', 'S'], lambda a, b, t, bez, c: float(CF.CurveFit.computeHook(a, b, t, bez, c)), 'S'),
+    K('CurveFit_estimateBi', ['seg4', 'LP', 'LS'], lambda bez, data, u: (CF.CurveFit.estimateBi(bez, data, u), bez)[1], 'seg4'),
+    K('CurveFit_chordLengthParameterize', ['LP2'], lambda pts: CF.CurveFit.chordLengthParameterize(pts), 'LS'),
+]
+NEW_KERNELS = SHAPE_KERNELS + BOUNDS_KERNELS + SEGMENT_KERNELS + FIT_KERNELS
+
+KERNELS = {k.name: k for k in (
     [K('Point___add__', ['P', 'P'], lambda a, b: a + b, 'P'), K('Point___sub__', ['P', 'P'], lambda a, b: a - b, 'P'),
      K('Point___mul__', ['P', 'S'], lambda a, k: a * k, 'P'), K('Point_dot', ['P', 'P'], lambda a, b: a.dot(b), 'S'),
      K('Point_lerp', ['P', 'P', 't'], lambda a, b, t: a.lerp(b, t), 'P'),
@@ -184,15 +247,21 @@ KERNELS = {k.coq: k for k in (
      K('Quad_toCubicBezier', ['seg3'], lambda s: s.toCubicBezier(), 'seg4'),
      K('Cubic_findExtremes_False', ['seg4'], lambda s: s.findExtremes(), 'LS'),
      K('Cubic_hasLoop', ['seg4'], lambda s: s.hasLoop, 'OSS'),
-     ] + seg_kernels('seg2') + seg_kernels('seg3') + seg_kernels('seg4'))}
+     ] + seg_kernels('seg2') + seg_kernels('seg3') + seg_kernels('seg4') + NEW_KERNELS)}
 
-IMPORTS = ['Gen.Utils', 'Gen.Point', 'Gen.Affine', 'Gen.BBox', 'Gen.Line', 'Gen.Quad', 'Gen.Cubic', 'Gen.CurveDist']
+IMPORTS = ['Gen.Utils', 'Gen.Point', 'Gen.Affine', 'Gen.BBox', 'Gen.Line', 'Gen.Quad', 'Gen.Cubic', 'Gen.CurveDist', 'Gen.Shapes', 'Gen.Fit']
 
 
 def clone_arg(kind, v):
     if kind in ('seg2', 'seg3', 'seg4'): return v.clone()
     if kind == 'M': return AffineTransformation([list(r) for r in v.matrix])
-    if kind == 'P': return v.clone()
+    if kind in ('P', 'OP') and v is not None: return v.clone()
+    if kind == 'LP': return [x.clone() for x in v]
+    if kind == 'LS': return list(v)
+    if kind in ('BB', 'OBB'):
+        b = BoundingBox()
+        if v.bl is not None: b.bl, b.tr = v.bl.clone(), v.tr.clone()
+        return b
     return v
 
 
@@ -208,6 +277,24 @@ def special_args(k, rng, args):
             a = s.pointAtTime(rng.random()); b = s.pointAtTime(rng.random())
             d = Point(rng.uniform(-50, 50), rng.uniform(-50, 50))
             args[1] = Line(a + d, a + d * -1.0)
+    if name == 'CurveFit_computeHook':
+        a, b, t, bez, c = args
+        d = bez.pointAtTime(t).distanceFrom(a.lerp(b, 0.5))   # both sides of `dist < cornerTolerance`, and the boundary
+        args[4] = rng.choice([d, d * 2 + 1.0, d / 2, abs(c), 0.0, -a.distanceFrom(b)])
+    if name == 'CurveFit_estimateBi':
+        bez, data, u = args
+        if rng.random() < 0.7:   # usually as many parameters as points, as _fitCurve calls it
+            u = sorted(rng.random() for _ in data)
+            if u: u[0] = 0.0
+            if len(u) > 1 and rng.random() < 0.7: u[-1] = 1.0
+            args[2] = u
+        if data and rng.random() < 0.5:   # data near the curve
+            args[1] = [bez.pointAtTime(rng.random()) + Point(rng.uniform(-2, 2), rng.uniform(-2, 2)) for _ in data]
+    if name == 'BBox_extend_Point' and args[0].bl is not None and rng.random() < 0.6:
+        b = args[0]   # points on the edges / at the corners / just inside and outside
+        xs = [b.bl.x, b.tr.x, (b.bl.x + b.tr.x) / 2, b.bl.x - 1.0, b.tr.x + 0.5, rng.uniform(b.bl.x - 3, b.tr.x + 3)]
+        ys = [b.bl.y, b.tr.y, (b.bl.y + b.tr.y) / 2, b.bl.y - 0.5, b.tr.y + 1.0, rng.uniform(b.bl.y - 3, b.tr.y + 3)]
+        args[1] = Point(rng.choice(xs), rng.choice(ys))
     if name == 'Line__line_line_intersections' and rng.random() < 0.3:
         s = args[0]
         x = rng.choice([s[0].x, rng.uniform(-100, 100)])
@@ -238,7 +325,7 @@ def cross_check(pid, names, n_per, rng, tag='kern'):
             tbl = px.take()
             ops = f'(FOpsT {vlib.clibm(tbl)})' if k.libm else 'FOps'
             try:
-                cases.append(cmp_expr(k.ret, f'{k.coq} {ops} {cargs}', val, k.tol))
+                cases.append(cmp_expr(k.ret, k.term(ops, cargs) if k.term else f'{k.coq} {ops} {cargs}', val, k.tol))
             except TypeError:
                 raised += 1; continue
             meta.append({'kernel': nm, 'args': [repr(a) if not hasattr(a, 'matrix') else a.matrix for a in args], 'python': repr(val)[:200]})
@@ -253,4 +340,18 @@ def cross_check(pid, names, n_per, rng, tag='kern'):
         fk = {}
         for i in res['failing']: fk[meta[i]['kernel']] = fk.get(meta[i]['kernel'], 0) + 1
         res['failing_kernels'] = fk
+    return res
+
+
+def merge_cross_check(res, pid, names, n_per, rng, label='regenerated-kernels'):
+    """run the kernel cross-check for `names` and fold its counts into the correspondence result `res` of a property module"""
+    k = cross_check(pid, names, n_per, rng, tag='kern')
+    res['n'] += k['n']; res['agree'] += k['agree']
+    res['errors'] = list(res.get('errors') or []) + list(k.get('errors') or [])
+    res.setdefault('distribution', {})[label] = {d: v['cases'] for d, v in k['distribution'].items()}
+    res.setdefault('kinds', {})['kernels'] = res.get('kinds', {}).get('kernels', 0) + len(names)
+    if k['failing'] and not res.get('first_disagreement'):
+        res['first_disagreement'] = k.get('first_disagreement')
+    if k['failing']:
+        res['failing'] = list(res.get('failing') or []) + [-1 - i for i in k['failing'][:5]]     # negative: kernel cases, not the module's own list
     return res
